@@ -222,21 +222,22 @@ def build():
     u.real_item(CTX, r"const CACHE_EDIT_WARNING\b", pub_const)
     cache_writer(u)
     # ---- read_cached_next_reference_id ----------------------------------------------------------------
-    f = u.real_fn(CTX, "read_cached_next_reference_id", scope=IMPL, owner="Context", props=("C02", "C04", "C15", "C16", "C17"))
+    f = u.real_fn(CTX, "read_cached_next_reference_id", scope=IMPL, owner="Context", props=("C01", "C02", "C04", "C15", "C16", "C17"))
     rules.sig(f, ret="r", world=True)
     rules.r1_logs(f)
     rules.r13_reroot(f, {"std::path::": "stdshim::path::", "std::fs::": "stdshim::fs::"})
     rules.r8_thread(f, [r"\.exists\(", r"std::fs::(?:read_to_string|remove_file|copy|rename|write)\("])
     f.ensures += [
         ("C04.frame", "final(w).fs == old(w).fs && same_but_fs(World { log: final(w).log, ..*old(w) }, *final(w))"),
-        ("C16.nocache,C16.corrupt,C15.lock", "r == lock_value(*old(w), config.use_cache, path_join(directory_path@, lock_name()))"),
+        # the value the allocator starts from when a lock is in use is exactly the one in the file (C01: "already ahead of every ID")
+        ("C16.nocache,C16.corrupt,C15.lock,C01.lock", "r == lock_value(*old(w), config.use_cache, path_join(directory_path@, lock_name()))"),
     ]
     f.at_start(' proof { reveal_strlit("Breadlog.lock"); assert("Breadlog.lock"@ =~= lock_name()); }')
     f.after_stmt("if let Ok(cache_yaml) = std::fs::read_to_string(", "") if False else None
     # quantified forms at the start: no anchor on the shape of the read (if-let or match)
     f.at_start(" proof { axiom_decode_all(); axiom_serde_cache_all(); }")
     # ---- new --------------------------------------------------------------------------------------------
-    f = u.real_fn(CTX, "new", scope=IMPL, owner="Context", props=("C04", "C15", "C16", "C17"))
+    f = u.real_fn(CTX, "new", scope=IMPL, owner="Context", props=("C01", "C04", "C15", "C16", "C17"))
     rules.sig(f, ret="res", world=True)
     rules.r1_logs(f)
     rules.r9_method_to_fn(f, "starts_with", "string_starts_with_char", arg_map={"std::path::": "stdshim::path::"})
@@ -258,7 +259,7 @@ def build():
         ("C15.rel", "res.is_ok() ==> res.unwrap().config.source_dir@ == "
          "(if %s.unwrap().source_dir@.len() > 0 && %s.unwrap().source_dir@[0] == '/' { %s.unwrap().source_dir@ } else { path_join(config_dir@, %s.unwrap().source_dir@) })" % (y, y, y, y)),
         ("C15.lock", "res.is_ok() ==> res.unwrap().config.config_dir@ == config_dir@"),
-        ("C16.nocache,C16.corrupt,C15.lock", "res.is_ok() ==> res.unwrap().cached_next_reference_id == "
+        ("C16.nocache,C16.corrupt,C15.lock,C01.lock", "res.is_ok() ==> res.unwrap().cached_next_reference_id == "
          "lock_value(*old(w), %s.unwrap().use_cache, path_join(config_dir@, lock_name()))" % y),
         ("C04.dispatch", "res.is_ok() ==> res.unwrap().check_mode == check_mode"),
     ]
